@@ -266,16 +266,32 @@ def run_problem(ctx, g, rng, high_e=False, large=False, many=False):
                           "marginal ln-likelihood must equal ln N(y | M mu, C + s^2 I + M Lambda M^T) "
                           "(exact-arithmetic execution of the current kernel source vs the closed form)", tags=tags)
             continue
+        # what a backward-stable evaluation of ln N(y | M mu, B) achieves: perturbations of relative size eps in B move
+        # chi2 by <= cond(B) eps chi2 and ln det B by <= n cond(B) eps  (+ the Kepler oracle's own tolerance)
+        tolS = 100 * 2.220446049250313e-16 * cB * (abs(float(cf["chi2"])) + c["n"]) + 1e-9 * (1 + abs(ll0))
         for pth, v in api.items():
             if not np.isfinite(v):
                 ctx.violation(R3, g, inp, api, dict(ll_closed_form=ll0), "marginal_ln_likelihood must be finite", tags=dict(tags, path=pth))
-            elif abs(v - ll0) > tolF:
-                if well or abs(v - ll0) > 1e-3 * (1 + abs(ll0)):
-                    ctx.violation(R2, g, inp, api, dict(ll_closed_form=ll0, tol=tolF, condAinv=cA, condB=cB),
-                                  f"marginal_ln_likelihood ({pth}) must agree with the closed form to numerical round-off",
-                                  tags=dict(tags, path=pth))
-                else:
-                    ctx.count("roundoff_exceedance_illconditioned")
+                continue
+            dev = abs(v - ll0)
+            if dev <= min(tolS, tolF) or dev <= 1e-11 * (1 + abs(ll0)):
+                continue
+            woodbury = dict(ll_closed_form=ll0, deviation=dev, tol_backward_stable=tolS, budget_of_the_woodbury_route=tolF,
+                            condAinv=cA, condB=cB, n_times=c["n"], n_linear=c["k"])
+            if dev <= tolF or not (well or dev > 1e-3 * (1 + abs(ll0))):
+                # explained by the cancellation inside the kernel's route  Binv = Cinv - Cinv M A M^T Cinv,  chi2 = r^T Binv r
+                # (error ~ eps cond(A^-1) r^T Cinv r): a numerically unstable algorithm on a well-posed problem.
+                # Listed in known_findings.json (C01-woodbury-cancellation); anything larger is a violation.
+                ctx.count("float deviation beyond a backward-stable evaluation but within the Woodbury route's own error bound")
+                ctx.violation(R2, g, inp, api, woodbury,
+                              f"marginal_ln_likelihood ({pth}) must agree with the closed form to numerical round-off: deviation "
+                              f"{dev:.3g} where a backward-stable evaluation stays within {tolS:.3g} (cond(B) = {cB:.3g}); the "
+                              f"kernel's Woodbury route allows {tolF:.3g} (cond(A^-1) = {cA:.3g})",
+                              tags=dict(tags, path=pth, what="woodbury-cancellation"))
+            else:
+                ctx.violation(R2, g, inp, api, woodbury,
+                              f"marginal_ln_likelihood ({pth}) must agree with the closed form to numerical round-off",
+                              tags=dict(tags, path=pth))
 
 
 def setup(ctx):
